@@ -48,10 +48,13 @@ impl FileOperations for WriteAheadLog {
         let fs_block_size = FileSystem::block_size(&path)?;
         let default_block_size = WAL_BLOCK_SIZE.next_multiple_of(fs_block_size);
 
-        // Read block 0 (global header)
-        let mut header_buf: BlockZero = BlockZero::new(default_block_size);
-        file.seek(SeekFrom::Start(0))?;
-        file.read_exact(header_buf.as_mut())?;
+        // Read block 0 (global header). A file shorter than one block (a log that was created or
+        // truncated and never flushed since) is a valid empty log.
+        let mut header_buf: BlockZero = BlockZero::alloc(0, default_block_size);
+        if file.metadata()?.len() >= default_block_size as u64 {
+            file.seek(SeekFrom::Start(0))?;
+            file.read_exact(header_buf.as_mut())?;
+        }
 
         // Usar el block_size del archivo, o el default si es 0
         let block_size = header_buf.metadata().wal_header.block_size as usize;
@@ -443,10 +446,12 @@ impl<'a> WalReader<'a> {
         block_size: usize,
         total_blocks: u64,
     ) -> io::Result<Self> {
-        // Read block zero (header)
-        let mut header = BlockZero::new(block_size);
-        file.seek(SeekFrom::Start(0))?;
-        file.read_exact(header.as_mut())?;
+        // Read block zero (header). A file shorter than one block is a valid empty log.
+        let mut header = BlockZero::alloc(0, block_size);
+        if file.metadata()?.len() >= block_size as u64 {
+            file.seek(SeekFrom::Start(0))?;
+            file.read_exact(header.as_mut())?;
+        }
 
         // Only blocks that a flush has recorded in the on-disk header exist in the file.
         let total_blocks = total_blocks.min(header.metadata().wal_header.total_blocks);
